@@ -411,3 +411,41 @@ def branch_tags(rec, vin, iout, ph=""):
     if len(rec.get("children", ())) >= 2:
         t.append("fanout")
     return t
+
+
+# ------------------------------------------------------------------------------------------------
+# phase configurations
+# ------------------------------------------------------------------------------------------------
+PH2 = {"a": 1.0, "b": 3.0}
+PH3 = {"a": 1.0, "b": 3.0, "c": 0.5}
+_PHMULT = {"a": 0.5, "b": 0.23, "c": 1.7}
+
+
+def nonempty_subsets(names):
+    out = []
+    for r in range(1, len(names) + 1):
+        out += [list(c) for c in itertools.combinations(names, r)]
+    return out
+
+
+def pc_options(comp, phases, full=True):
+    """All phase configurations of one component: None | every non-empty subset of the phases."""
+    names = list(phases)
+    subs = nonempty_subsets(names) if full else [[names[0]], [names[-1]]]
+    k = comp["k"]
+    if k in PHASE_LIST_KINDS:
+        return [None] + subs
+    if k in LOADS:
+        key = {"PLoad": "pwr", "ILoad": "ii", "RLoad": "rs"}[k]
+        return [None] + [{p: _r(abs(comp["a"][key]) * _PHMULT[p]) for p in s} for s in subs]
+    return [None]
+
+
+def with_phases(spec, phases, assign):
+    """copy of spec with system phases and per-component configs (assign: name -> pc)."""
+    sp = copy.deepcopy(spec)
+    sp["phases"] = dict(phases)
+    for c in sp["comps"]:
+        if assign.get(c["n"]) is not None:
+            c["pc"] = assign[c["n"]]
+    return sp
